@@ -378,15 +378,20 @@ impl<'a> Run<'a> {
         let tests: [(Extra, &str); 5] = [
             (Extra::Stale, "expired-grant-honoured"),
             (Extra::Orphans, "delegated-grant-survives-revoke_delegation"),
-            (Extra::EdgeToSecret, "non-access-edge-to-secret-confers"),
             (Extra::MemberPrefixed, "allow-via-nonlisted-edge:member-prefixed-type"),
+            (Extra::EdgeToSecret, "non-access-edge-to-secret-confers"),
             (Extra::AnyEdge, "allow-via-nonlisted-edge"),
         ];
         for (x, name) in tests {
             if self.m.perm_extra(r, s, x, OTHER_EDGE_TYPES).level >= need {
-                if x == Extra::MemberPrefixed {
+                if x == Extra::MemberPrefixed || x == Extra::Orphans {
                     // one defect whatever the operation: the edge type decides
                     return name.to_string();
+                }
+                if x == Extra::Stale && op != "get" && op != "list" {
+                    // get/list are the documented reaping points and must never honour an expired
+                    // grant; every other operation is one class
+                    return format!("{name}:until-next-read");
                 }
                 return format!("{name}:{op}");
             }
@@ -595,9 +600,10 @@ impl<'a> Run<'a> {
                 let level = lvl + 1;
                 let name = self.sname(s);
                 self.before_op(false);
-                let t0 = Instant::now();
                 let rq = self.pname(r).to_string();
                 let tn = self.pname(t).to_string();
+                let sut_before = level_of(self.vault.get_permission(&tn, &name));
+                let t0 = Instant::now();
                 let (opn, res): (&'static str, _) = match ttl {
                     Ttl::None => match self.view_parts(s, *view) {
                         Some((ns, key)) => ("grant", self.vault.namespace(ns, &rq).grant(&tn, &key, perm_of(level))),
@@ -614,7 +620,6 @@ impl<'a> Run<'a> {
                 let exists = self.m.secrets[s].exists;
                 let up_ok = exists && self.m.perm_up(r, s).level >= ADMIN;
                 let lo_ok = exists && self.m.perm_lo(r, s).level >= ADMIN;
-                let before_t = self.m.perm_up(t, s).level;
                 let took = self.judge(ctx, opn, r, Some(s), ADMIN, up_ok, lo_ok, res.is_ok(), res.as_ref().err())?;
                 if took && exists {
                     let entry = if *ttl == Ttl::Short {
@@ -627,14 +632,13 @@ impl<'a> Run<'a> {
                         None
                     };
                     self.m.add_grant(t, s, G { level, deleg: None, entry });
-                } else if !took && t != 0 {
+                } else if !took {
                     // a denied grant changes nothing
                     let now_t = level_of(self.vault.get_permission(&tn, &name));
-                    let up_t = self.m.perm_up(t, s).level;
-                    if now_t > up_t && now_t > before_t && self.m.perm_extra(t, s, Extra::Stale, OTHER_EDGE_TYPES).level < now_t {
+                    if now_t != sut_before {
                         ctx.fail(
                             format!("state-changed:{opn}:denied-grant-took-effect"),
-                            format!("{}: denied grant by {rq} still raised {tn} to {} on {name:?}", self.step, lname(now_t)),
+                            format!("{}: denied grant by {rq} changed {tn} from {} to {} on {name:?}", self.step, lname(sut_before), lname(now_t)),
                         )?;
                     }
                 }
@@ -678,8 +682,12 @@ impl<'a> Run<'a> {
                 Ok(())
             },
             Op::Delegate { parent, child, secs, lvl, ttl } => self.op_delegate(ctx, self.p(parent), self.p(child), secs, lvl + 1, *ttl),
-            Op::RevokeDeleg { parent, child, cascade } => {
-                let (pa, ch) = (self.p(parent), self.p(child));
+            Op::RevokeDeleg { parent, child, cascade, existing, which } => {
+                let (mut pa, mut ch) = (self.p(parent), self.p(child));
+                if *existing && !self.m.deleg.is_empty() {
+                    let keys: Vec<(usize, usize)> = self.m.deleg.keys().cloned().collect();
+                    (pa, ch) = keys[pick(*which, keys.len())];
+                }
                 self.before_op(false);
                 let pn = self.pname(pa).to_string();
                 let cn = self.pname(ch).to_string();
@@ -741,8 +749,15 @@ impl<'a> Run<'a> {
                 ctx.label("member:add");
                 Ok(())
             },
-            Op::RemoveMember { from, to } => {
-                let (f, t) = (self.p(from), self.p(to));
+            Op::RemoveMember { from, to, existing, which } => {
+                let (mut f, mut t) = (self.p(from), self.p(to));
+                if *existing {
+                    let cands: Vec<(usize, usize)> =
+                        self.edges.iter().filter(|e| e.ty == "MEMBER" && e.to_p.is_some()).map(|e| (e.from, e.to_p.unwrap_or(0))).collect();
+                    if !cands.is_empty() {
+                        (f, t) = cands[pick(*which, cands.len())];
+                    }
+                }
                 let Some(pos) = self.edges.iter().position(|e| e.from == f && e.to_p == Some(t) && e.ty == "MEMBER") else {
                     ctx.label("skip:member-remove-none");
                     return Ok(());
@@ -1347,8 +1362,8 @@ fn main() {
             "marker forms scanned: raw, hex (both cases), base64 (std/url-safe, 3 alignments), decimal byte list",
         ],
         parts: vec![
-            PropPart::new("hist", 6000, 150_000, |t: Tier| case::case_strategy(false, t.pick(40, 40)), run_case).shrink_iters(400).boxed(),
-            PropPart::new("ttl", 700, 12_000, |t: Tier| case::case_strategy(true, t.pick(30, 30)), run_case).shrink_iters(300).boxed(),
+            PropPart::new("hist", 20_000, 600_000, |t: Tier| case::case_strategy(false, t.pick(40, 40)), run_case).shrink_iters(400).boxed(),
+            PropPart::new("ttl", 2000, 40_000, |t: Tier| case::case_strategy(true, t.pick(30, 30)), run_case).shrink_iters(300).boxed(),
         ],
         children: vec![],
     });
